@@ -207,7 +207,10 @@ def _run_case(conns, case) -> dict:
         cur.execute("insert into BY values (7, 'by'), (NULL, NULL)")
         tgt_cols = f"(id int, c {ty})"
         fam = _family(ty)
-        if path in ("literal", "pyformat", "qmark", "write_pandas"):
+        if path == "write_pandas":
+            # a quoted, lower-case column name with a space: `_insert_df` must insert by quoted column name
+            cur.execute(f'create or replace table T (id int, c {ty}, "k w" varchar)')
+        elif path in ("literal", "pyformat", "qmark"):
             cur.execute(f"create or replace table T {tgt_cols}")
         stage = path in ("insert-select", "ctas", "clone")
         if stage:
@@ -234,9 +237,12 @@ def _run_case(conns, case) -> dict:
         elif path == "write_pandas":
             if fam == "number":
                 vals = [None if v is None else Decimal(v) for v in vals]      # exact objects; bare ints beyond int64 cannot be put in a dataframe/parquet column
-            df = pd.DataFrame({"ID": list(range(1, len(vals) + 1)), "C": pd.Series(list(vals), dtype=None if fam not in ("json", "text", "binary", "bool", "number", "date", "time", "tz") else object)})
+            df = pd.DataFrame({"k w": [f"kw{i}" for i in range(len(vals))], "ID": list(range(1, len(vals) + 1)),
+                               "C": pd.Series(list(vals), dtype=None if fam not in ("json", "text", "binary", "bool", "number", "date", "time", "tz") else object)})
             ok, nchunks, nrows, _ = pt.write_pandas(conn, df, "T")
             out["wp"] = [bool(ok), int(nrows)]
+            cur.execute('select "k w" from T order by id')
+            out["kw"] = [r[0] for r in cur.fetchall()]
         if path == "insert-select":
             cur.execute(f"create or replace table T {tgt_cols}")
             cur.execute("insert into T select * from S")
@@ -450,6 +456,9 @@ def _check_value(chk, case, real, tyrep, fitreps):
     if path == "insert-select" and real.get("copy_count") != len(vals):
         chk.violation(f"{ty} via insert-select: reported count {real.get('copy_count')} for {len(vals)} rows", rcase,
                       broken="C01_insert_select (count)")
+        return
+    if path == "write_pandas" and real.get("kw") != [f"kw{i}" for i in range(len(vals))]:
+        chk.violation(f"write_pandas: quoted column \"k w\" read back as {real.get('kw')}", rcase, broken="C01_insert_df_cells (insert by quoted column name)")
         return
     if path == "write_pandas" and real.get("wp") != [True, len(vals)]:
         chk.violation(f"write_pandas returned {real.get('wp')} for {len(vals)} rows", rcase, broken="C01 write_pandas return tuple")
